@@ -159,6 +159,7 @@ impl Prop for C03 {
             child_res: 10,
             suspend: 5,
             child_remove: 3,
+            heal: 3,
             parent_remove: 2,
             ca_delete: 2,
             mapping: 6,
